@@ -1,3 +1,3 @@
 SPECIFICATION Spec
-CONSTANTS LibLines <- NoLib  Lines <- Id7  Prog <- ProgLoopSub  BpSets <- Bps2  MaxReq = 3  Deviations <- NoDev  Fuel = 40
+CONSTANTS LibLines <- NoLib  Lines <- Id7  Prog <- ProgLoopSub  BpSets <- Bps2  MaxReq = 3  Deviations <- StepRaceOnly  Fuel = 40
 INVARIANT NeverStepOutInSub
